@@ -1,6 +1,174 @@
 import SigpyVerif.Model.Py
 import SigpyVerif.Model.Proto
+import SigpyVerif.Model.C08
 namespace SigpyVerif.Drv.C08
+open SigpyVerif SigpyVerif.Proto SigpyVerif.C08
+
+def parseGI? (s : String) : Option GI :=
+  match s.splitOn ";" with
+  | [r] => (parseInt? r).map fun a => ⟨a, 0⟩
+  | [r, i] => do let a ← parseInt? r; let b ← parseInt? i; some ⟨a, b⟩
+  | _ => none
+
+def parseGIList? (s : String) : Option (Array GI) :=
+  if s == "-" then some #[] else ((s.splitOn ",").mapM parseGI?).map List.toArray
+
+def fmtGI (z : GI) : String := if z.im == 0 then toString z.re else s!"{z.re};{z.im}"
+
+def fmtGIList (l : List GI) : String := if l.isEmpty then "-" else ",".intercalate (l.map fmtGI)
+
+def reply (r : Except String (List Int × Array GI)) : String :=
+  match r with
+  | .ok (sh, a) => s!"ok {fmtIntList sh} | {fmtGIList a.toList}"
+  | .error e => s!"err {e}"
+
+def optList (toks : List String) (k : String) : Option (Option (List Int)) :=
+  match kv toks k with
+  | none => none
+  | some "none" => some none
+  | some s => (parseIntList? s).map some
+
+def getMode (toks : List String) : Option Bool :=
+  match kv toks "mode" with
+  | some "full" => some true
+  | some "valid" => some false
+  | _ => none
+
+def getBool (toks : List String) (k : String) : Option Bool :=
+  match kv toks k with
+  | some "1" => some true
+  | some "0" => some false
+  | _ => none
+
+def fn (a : Array GI) (i : Int) : GI := if 0 ≤ i ∧ i < a.size then a.getD i.toNat 0 else 0
+
 /-- protocol handler for property C08 (tokens after the property id). -/
-def handle (_toks : List String) : String := "err bad-op"
+def handle (toks : List String) : String :=
+  let getL (k : String) := (kv toks k).bind parseIntList?
+  let getI (k : String) := (kv toks k).bind parseInt?
+  let getA (k : String) := (kv toks k).bind parseGIList?
+  match toks.head? with
+  | some "conv" =>
+    match getL "dsh", getL "fsh", getMode toks, optList toks "st", getBool toks "mc", getA "d", getA "f" with
+    | some dsh, some fsh, some full, some st, some mc, some d, some f =>
+      if d.size ≠ (shapeProd dsh).toNat ∨ f.size ≠ (shapeProd fsh).toNat then "err size" else
+      reply (convolve dsh fsh full st mc d f)
+    | _, _, _, _, _, _, _ => "err bad-op"
+  | some "dadj" =>
+    match getL "dsh", getL "fsh", getMode toks, optList toks "st", getBool toks "mc", getL "ysh", getA "y", getA "f" with
+    | some dsh, some fsh, some full, some st, some mc, some ysh, some y, some f =>
+      if y.size ≠ (shapeProd ysh).toNat ∨ f.size ≠ (shapeProd fsh).toNat then "err size" else
+      reply (adjoint GI.conj true dsh fsh full st mc ysh y f)
+    | _, _, _, _, _, _, _, _ => "err bad-op"
+  | some "fadj" =>
+    match getL "dsh", getL "fsh", getMode toks, optList toks "st", getBool toks "mc", getL "ysh", getA "y", getA "d" with
+    | some dsh, some fsh, some full, some st, some mc, some ysh, some y, some d =>
+      if y.size ≠ (shapeProd ysh).toNat ∨ d.size ≠ (shapeProd dsh).toNat then "err size" else
+      reply (adjoint GI.conj false dsh fsh full st mc ysh y d)
+    | _, _, _, _, _, _, _, _ => "err bad-op"
+  -- the 1-D single-channel layer the theorems are about (domain: full, or valid with m ≥ n; s ≥ 1)
+  | some "conv1" =>
+    match getI "m", getI "n", getI "s", getMode toks, getA "d", getA "f" with
+    | some m, some n, some s, some full, some d, some f =>
+      if d.size ≠ m.toNat ∨ f.size ≠ n.toNat ∨ m < 1 ∨ n < 1 ∨ s < 1 ∨ (!full ∧ m < n) then "err domain" else
+      let p := if full then Gen.convFullLen m n s else Gen.convValidLen m n s
+      reply (.ok ([p], ((pyRange0 p).map fun k => conv1At full m n s (fn d) (fn f) k).toArray))
+    | _, _, _, _, _, _ => "err bad-op"
+  | some "dadj1" =>
+    match getI "m", getI "n", getI "s", getMode toks, getA "y", getA "f" with
+    | some m, some n, some s, some full, some y, some f =>
+      if f.size ≠ n.toNat ∨ m < 1 ∨ n < 1 ∨ s < 1 ∨ (!full ∧ m < n) then "err domain" else
+      let l := dataAdj1Len full m n
+      reply (.ok ([l], ((pyRange0 l).map fun i => dataAdj1At GI.conj full m n s (fn y) (fn f) i).toArray))
+    | _, _, _, _, _, _ => "err bad-op"
+  | some "fadj1" =>
+    match getI "m", getI "n", getI "s", getMode toks, getA "y", getA "d" with
+    | some m, some n, some s, some full, some y, some d =>
+      if d.size ≠ m.toNat ∨ m < 1 ∨ n < 1 ∨ s < 1 ∨ (!full ∧ m < n) then "err domain" else
+      let l := filtAdj1Len full m n
+      reply (.ok ([l], ((pyRange0 l).map fun j => filtAdj1At GI.conj full m n s (fn y) (fn d) j).toArray))
+    | _, _, _, _, _, _ => "err bad-op"
+  -- the 1-D batch / multi-channel layer (arrays of shape [B, ci, m], [co, ci, n], [B, co, p]); same domain
+  | some "mc1" =>
+    match kv toks "which", getI "B", getI "ci", getI "co", getI "m", getI "n", getI "s", getMode toks with
+    | some which, some B, some ci, some co, some m, some n, some s, some full =>
+      if B < 1 ∨ ci < 1 ∨ co < 1 ∨ m < 1 ∨ n < 1 ∨ s < 1 ∨ (!full ∧ m < n) then "err domain" else
+      let p := if full then Gen.convFullLen m n s else Gen.convValidLen m n s
+      let arr3 (sh : List Int) (a : Array GI) (i j k : Int) : GI := readZ sh a [i, j, k]
+      match which, getA "d", getA "f", getA "y" with
+      | "conv", some d, some f, _ =>
+        if d.size ≠ (B * ci * m).toNat ∨ f.size ≠ (co * ci * n).toNat then "err size" else
+        reply (.ok ([B, co, p], ((allIdx [B, co, p]).map fun idx =>
+          match idx with
+          | [b, o, k] => convMC1At full m n s ci.toNat (arr3 [B, ci, m] d) (arr3 [co, ci, n] f) b o k
+          | _ => 0).toArray))
+      | "dadj", _, some f, some y =>
+        if y.size ≠ (B * co * p).toNat ∨ f.size ≠ (co * ci * n).toNat then "err size" else
+        reply (.ok ([B, ci, m], ((allIdx [B, ci, m]).map fun idx =>
+          match idx with
+          | [b, c, i] => dataAdjMC1At GI.conj full m n s co.toNat (arr3 [B, co, p] y) (arr3 [co, ci, n] f) b c i
+          | _ => 0).toArray))
+      | "fadj", some d, _, some y =>
+        if y.size ≠ (B * co * p).toNat ∨ d.size ≠ (B * ci * m).toNat then "err size" else
+        reply (.ok ([co, ci, n], ((allIdx [co, ci, n]).map fun idx =>
+          match idx with
+          | [o, c, j] => filtAdjMC1At GI.conj full m n s B.toNat (arr3 [B, co, p] y) (arr3 [B, ci, m] d) o c j
+          | _ => 0).toArray))
+      | _, _, _, _ => "err bad-op"
+    | _, _, _, _, _, _, _, _ => "err bad-op"
+  -- the 2-D single-channel layer (domain: full, or valid with m ≥ n on both axes; strides ≥ 1)
+  | some "c2" =>
+    match kv toks "which", getL "m", getL "n", getL "s", getMode toks with
+    | some which, some [m1, m2], some [n1, n2], some [s1, s2], some full =>
+      if m1 < 1 ∨ m2 < 1 ∨ n1 < 1 ∨ n2 < 1 ∨ s1 < 1 ∨ s2 < 1 ∨ (!full ∧ (m1 < n1 ∨ m2 < n2)) then "err domain" else
+      let pl (m n s : Int) := if full then Gen.convFullLen m n s else Gen.convValidLen m n s
+      let p1 := pl m1 n1 s1
+      let p2 := pl m2 n2 s2
+      let arr2 (sh : List Int) (a : Array GI) (i j : Int) : GI := readZ sh a [i, j]
+      match which, getA "d", getA "f", getA "y" with
+      | "conv", some d, some f, _ =>
+        if d.size ≠ (m1 * m2).toNat ∨ f.size ≠ (n1 * n2).toNat then "err size" else
+        reply (.ok ([p1, p2], ((allIdx [p1, p2]).map fun idx =>
+          match idx with
+          | [k1, k2] => conv2At full m1 m2 n1 n2 s1 s2 (arr2 [m1, m2] d) (arr2 [n1, n2] f) k1 k2
+          | _ => 0).toArray))
+      | "dadj", _, some f, some y =>
+        if y.size ≠ (p1 * p2).toNat ∨ f.size ≠ (n1 * n2).toNat then "err size" else
+        reply (.ok ([m1, m2], ((allIdx [m1, m2]).map fun idx =>
+          match idx with
+          | [i1, i2] => dataAdj2At GI.conj full m1 m2 n1 n2 s1 s2 (arr2 [p1, p2] y) (arr2 [n1, n2] f) i1 i2
+          | _ => 0).toArray))
+      | "fadj", some d, _, some y =>
+        if y.size ≠ (p1 * p2).toNat ∨ d.size ≠ (m1 * m2).toNat then "err size" else
+        reply (.ok ([n1, n2], ((allIdx [n1, n2]).map fun idx =>
+          match idx with
+          | [j1, j2] => filtAdj2At GI.conj full m1 m2 n1 n2 s1 s2 (arr2 [p1, p2] y) (arr2 [m1, m2] d) j1 j2
+          | _ => 0).toArray))
+      | _, _, _, _ => "err bad-op"
+    | _, _, _, _, _ => "err bad-op"
+  -- the D-dimensional single-channel layer (recursion over the axes); domain: full, or valid with m ≥ n on every axis
+  | some "cD" =>
+    match kv toks "which", getL "m", getL "n", getL "s", getMode toks with
+    | some which, some m, some n, some s, some full =>
+      if m.length ≠ n.length ∨ m.length ≠ s.length ∨ m.isEmpty ∨ (m ++ n ++ s).any (· < 1) ∨
+          (!full ∧ (List.zip m n).any fun (a, b) => a < b) then "err domain" else
+      let axD := mkAxes true full m n s
+      let axF := mkAxes false full m n s
+      let p := axD.map (·.p)
+      match which, getA "d", getA "f", getA "y" with
+      | "conv", some d, some f, _ =>
+        if d.size ≠ (shapeProd m).toNat ∨ f.size ≠ (shapeProd n).toNat then "err size" else
+        reply (.ok (p, ((allIdx p).map fun k => convD axD (readZ m d) (readZ n f) k).toArray))
+      | "convF", some d, some f, _ =>   -- the same forward map, written as linear in the filter
+        if d.size ≠ (shapeProd m).toNat ∨ f.size ≠ (shapeProd n).toNat then "err size" else
+        reply (.ok (p, ((allIdx p).map fun k => convD axF (readZ n f) (readZ m d) k).toArray))
+      | "dadj", _, some f, some y =>
+        if y.size ≠ (shapeProd p).toNat ∨ f.size ≠ (shapeProd n).toNat then "err size" else
+        reply (.ok (m, ((allIdx m).map fun i => adjD GI.conj axD (readZ p y) (readZ n f) i).toArray))
+      | "fadj", some d, _, some y =>
+        if y.size ≠ (shapeProd p).toNat ∨ d.size ≠ (shapeProd m).toNat then "err size" else
+        reply (.ok (n, ((allIdx n).map fun j => adjD GI.conj axF (readZ p y) (readZ m d) j).toArray))
+      | _, _, _, _ => "err bad-op"
+    | _, _, _, _, _ => "err bad-op"
+  | _ => "err bad-op"
 end SigpyVerif.Drv.C08
